@@ -10,14 +10,46 @@ SIZES = ["s0", "s1", "s100", "s16k", "s16k1", "s70k", "s300k"]
 KINDS = ["text", "rand", "gzprefix", "gzhdr", "zeros", "html"]
 VIAS = ["stream", "readurl", "streamcontent", "readerat", "get"]
 RANGES = ["full", "all", "head1", "tail1", "mid", "half2", "cross64k", "inner"]
+# what the S3 copy handlers, the replication source and `weed download` fetch with
+VIAS2 = ["rcloser", "download", "head"]
+FULL_ONLY = ("get", "download", "head")
+RAW_EXTS = ["none", "txt", "jpg", "weird"]
+RAW_MIMES = ["none", "text", "octet", "form", "jpeg"]
+RAW_SIZES = ["s0", "s1", "s100", "s70k", "s1m", "s1m1", "s1m2"]
+RAW_KINDS = ["text", "rand", "gzhdr", "zeros"]
+MD5S = ["none", "right", "wrong", "wire"]
+NAMEATS = ["none", "part", "url", "second"]
+HUGE = ("s1m", "s1m1", "s1m2")
+# quick tier: which (method, gzipped kind or False, digest) combinations are sent with a body over the server's limit
+HUGE_QUICK = {("Put", False, "none"), ("Multipart", False, "none"), ("Put", "rand", "none"), ("Put", "text", "none"),
+              ("Multipart", "text", "right"), ("Put", False, "wrong"), ("Put", "gzhdr", "none"),
+              ("Multipart", "rand", "none")}
 
 
-def fetch_plan(rng, n=None):
-    plan = [{"ev": "fetch", "id": 1, "via": v, "rng": r} for v in VIAS for r in RANGES
-            if not (v == "get" and r != "full")]
-    if n:
-        plan = rng.sample(plan, n)
-    return plan
+def F(via, r):
+    return {"ev": "fetch", "id": 1, "via": via, "rng": r}
+
+
+def fetch_plan(rng, thorough):
+    """the 33 fetches of the chunk download path + the copy / download paths (quick: a seeded part of the latter)"""
+    plan = [F(v, r) for v in VIAS for r in RANGES if not (v in FULL_ONLY and r != "full")]
+    more = [F("rcloser", r) for r in RANGES if r != "full"]
+    if not thorough:
+        more = rng.sample(more, 2)
+    return plan + [F("rcloser", "full")] + more + [F("download", "full"), F("head", "full")]
+
+
+def raw_fetch_plan(rng, thorough, size):
+    """fetches behind a raw HTTP upload: every new path, a seeded part of the old ones"""
+    if size in HUGE:
+        return [F("stream", "full"), F("readurl", "tail1"), F("rcloser", "full"), F("rcloser", "tail1"),
+                F("download", "full"), F("head", "full")]
+    old = [F(v, r) for v in VIAS for r in RANGES if not (v in FULL_ONLY and r != "full")]
+    new = [F("rcloser", r) for r in RANGES] + [F("download", "full"), F("head", "full")]
+    if not thorough:
+        old = rng.sample(old, 8)
+        new = new[:1] + rng.sample(new[1:8], 4) + new[8:]
+    return new + old
 
 
 def decomp_execs(rng, thorough):
@@ -70,24 +102,28 @@ def store_execs(rng, thorough):
     execs = []
     for case, i in cases:
         ops = [{"ev": "store", "id": 1, "case": case, "i": i}]
-        ops += [{"ev": "fetch", "id": 1, "via": v, "rng": r} for v in VIAS for r in ("full", "mid", "head1")
-                if not (v == "get" and r != "full")]
+        ops += [{"ev": "fetch", "id": 1, "via": v, "rng": r} for v in VIAS + VIAS2 for r in ("full", "mid", "head1")
+                if not (v in FULL_ONLY and r != "full")]
         execs.append(ops)
     return execs
 
 
 def nontrivial(lines):
-    up = any(('"ev":"upload"' in s or '"ev":"store"' in s) and '"res":"ok"' in s for s in lines)
+    up = any(('"ev":"upload"' in s or '"ev":"store"' in s) and '"res":"ok"' in s for s in lines) or \
+        any('"ev":"put"' in s and '"status":201' in s for s in lines)
     fe = sum(1 for s in lines if '"ev":"fetch"' in s and '"res":"ok"' in s)
     de = any('"ev":"decomp"' in s and '"case":"valid"' not in s for s in lines)
-    return (up and fe >= 2) or de
+    # a request with a digest that does not fit, and fetches that were attempted behind it
+    void = any('"ev":"put"' in s and '"md5":"wrong"' in s for s in lines) and \
+        sum(1 for s in lines if '"ev":"fetch"' in s and '"applicable":true' in s) >= 2
+    return (up and fe >= 2) or de or void
 
 
 def mutate(evs):
     """binding self-test: a fetched segment is shifted by one byte in the record"""
     for i, e in enumerate(evs):
         if e["ev"] == "fetch" and e.get("res") == "ok" and e.get("applicable") and e["seg"]["len"] >= 2 \
-                and e["seg"]["src"] == "d":
+                and e["seg"]["src"] == "d" and e["via"] != "head":
             m = json.loads(json.dumps(evs))
             m[i]["seg"]["off"] += 1
             return m
@@ -100,17 +136,25 @@ def run(ctx):
     rng = random.Random(ctx.seed)
     # 1. decision table: TLC enumerates every row of (name class, mime class, size class, content kind, cipher,
     #    declared-compressed, upload function) and checks that the modelled pipeline is the identity for it
+    fns = {"UploadData", "Upload", "Put", "Multipart"}
     if th:
-        table = {"Exts": set(EXTS), "Mimes": set(MIMES), "Sizes": set(SIZES), "Kinds": set(KINDS),
-                 "Fns": {"UploadData", "Upload"}}
+        table = {"Exts": set(EXTS), "Mimes": set(MIMES), "Sizes": set(SIZES), "Kinds": set(KINDS), "Fns": fns,
+                 "RawExts": set(RAW_EXTS), "RawMimes": set(RAW_MIMES), "RawSizes": set(RAW_SIZES),
+                 "RawKinds": set(RAW_KINDS), "Md5s": set(MD5S), "NameAts": set(NAMEATS)}
     else:
         table = {"Exts": {"none", "txt", "dottxt", "jpg", "weird"}, "Mimes": {"none", "text", "image", "octet"},
                  "Sizes": {"s0", "s1", "s100", "s16k1", "s70k"}, "Kinds": {"text", "rand", "gzprefix", "gzhdr", "zeros"},
-                 "Fns": {"UploadData", "Upload"}}
+                 "Fns": fns,
+                 "RawExts": {"none", "txt", "weird"}, "RawMimes": {"none", "form"},
+                 "RawSizes": {"s0", "s100", "s70k", "s1m2"}, "RawKinds": {"text", "rand", "gzhdr"},
+                 "Md5s": set(MD5S), "NameAts": set(NAMEATS)}
     inst = ctx.instance("MC_C33_table", "Transparent", "Transparent_mc.cfg", table)
-    rows = [h[0] for h in ctx.generate(inst, workers=4, timeout=1200)]
+    allrows = [h[0] for h in ctx.generate(inst, workers=4, timeout=1200)]
+    rows = [r for r in allrows if r["fn"] in ("UploadData", "Upload")]
+    rawrows = [r for r in allrows if r["fn"] in ("Put", "Multipart")]
     ctx.notes["decision_table_rows"] = len(rows)
-    if not rows:
+    ctx.notes["raw_request_rows"] = len(rawrows)
+    if not rows or not rawrows:
         import vf
         raise vf.Infra("the decision table is empty")
     want = 3500 if th else 260
@@ -128,8 +172,34 @@ def run(ctx):
     execs = []
     for r in picked:
         ops = [dict(ev="upload", id=1, **r)]
-        ops += fetch_plan(rng)
+        ops += fetch_plan(rng, th)
         execs.append(ops)
+    # raw HTTP requests: every (method, place of the name, gzipped?, digest), (size, kind, gzipped?) and (method, mime,
+    # kind, gzipped?, digest that lets the request through?) combination at least once, the rest a seeded sample;
+    # bodies around the server's upload limit are few (1 MiB per fetch)
+    rawrows.sort(key=lambda r: json.dumps(r, sort_keys=True))
+    rng.shuffle(rawrows)
+    seen, rpicked, rest = set(), [], []
+    for r in rawrows:
+        keys = {("a", r["fn"], r["nameat"], r["gzin"], r["md5"]), ("b", r["size"], r["kind"], r["gzin"]),
+                ("c", r["fn"], r["mime"], r["kind"], r["gzin"], r["md5"] in ("none", "wire")),
+                ("d", r["fn"], r["size"], r["gzin"], r["md5"] == "wrong")}
+        if r["size"] in HUGE:
+            hk = ("h", r["fn"], r["size"], r["gzin"] and r["kind"], r["md5"])
+            if hk not in seen and r["mime"] == "none" and (th or hk[1:2] + hk[3:] in HUGE_QUICK):
+                seen |= keys | {hk}
+                rpicked.append(r)
+            continue
+        if keys - seen:
+            seen |= keys
+            rpicked.append(r)
+        else:
+            rest.append(r)
+    rwant = 600 if th else 110
+    rpicked += rest[:max(0, rwant - len(rpicked))]
+    ctx.notes["raw_request_executions"] = len(rpicked)
+    for r in rpicked:
+        execs.append([dict(ev="put", id=1, **r)] + raw_fetch_plan(rng, th, r["size"]))
     execs += store_execs(rng, th)
     execs += decomp_execs(rng, th)
     script = os.path.join(ctx.out, "script.ndjson")
@@ -143,14 +213,16 @@ def run(ctx):
                     f.write(json.dumps(op) + "\n")
     binp = ctx.build("c33")
     trace = ctx.drive(binp, ["--script", script])
-    small = {"Exts": {"none"}, "Mimes": {"none"}, "Sizes": {"s0"}, "Kinds": {"text"}, "Fns": {"UploadData"}, "Advisory": False}
+    small = {"Exts": {"none"}, "Mimes": {"none"}, "Sizes": {"s0"}, "Kinds": {"text"}, "Fns": {"UploadData"},
+             "RawExts": {"none"}, "RawMimes": {"none"}, "RawSizes": {"s0"}, "RawKinds": {"text"}, "Md5s": {"none"},
+             "NameAts": {"none"}, "Advisory": False}
     ctx.judge("TransparentTrace", trace, "trace_base.cfg", small, nontrivial=nontrivial, mutate=mutate,
               chunk_events=20000 if th else 2500)
     # advisory: does the decision table predict what doUploadData reported (compressed? encrypted? clear size)
     ups = os.path.join(ctx.out, "uploads.ndjson")
     with open(trace) as f, open(ups, "w") as g:
         for line in f:
-            if '"ev":"reset"' in line or '"ev":"upload"' in line:
+            if '"ev":"reset"' in line or '"ev":"upload"' in line or '"ev":"put"' in line:
                 g.write(line)
     ctx.judge_advisory("TransparentTrace", ups, "trace_base.cfg", dict(small, Advisory=True))
     ctx.rule = ("executions = one per decision-table row enumerated by TLC (name class x mime class x size class incl. 0, 1, "
@@ -158,17 +230,25 @@ def run(ctx):
                 "garbage/zeros/html x cipher x declared-compressed x UploadData|Upload; quick: every (size, kind, cipher, "
                 "declared-compressed) combination plus a seeded sample): upload through the real client function to a real "
                 "volume server, then 33 fetches (ReadUrlAsStream, ReadUrl, StreamContent, ChunkReadAt x full + 7 ranges, "
-                "util.Get full); + gzip streams (valid / truncated / flipped / bad method / flags / trailing garbage / "
-                "random) stored as compressed needles and fetched through every path; + DecompressData / "
+                "util.Get full) + ReadUrlAsReaderCloser (no range, a-b, suffix, open range; quick: full + 2 ranges), "
+                "LookupFileId + DownloadFile, Head; + one per picked raw-request row (Put|Multipart x place of the name x "
+                "name class x mime class incl. form-urlencoded x size incl. upload limit +1 / +2 x kind x gzipped x "
+                "Content-MD5 none/right/wrong/of the body as sent; every (method, place, gzipped, digest), (size, kind, "
+                "gzipped) and (method, mime, kind, gzipped, digest passes) combination plus a seeded sample; few bodies around the 1 MiB limit): a "
+                "real HTTP request to the volume server, then the new fetch paths and (quick: 8 of) the 33 old ones, "
+                "attempted whatever the server answered; + gzip streams (valid / truncated / flipped / bad method / flags / "
+                "trailing garbage / random) stored as compressed needles and fetched through every path; + DecompressData / "
                 "MaybeDecompressData / GzipData / MaybeGzipData on the same corruptions at (thorough: every third) position "
-                "and on seeded random bytes; non-trivial = a successful upload with >= 2 successful fetches, or "
-                "decompression of a corrupted stream")
+                "and on seeded random bytes; non-trivial = a successful upload with >= 2 successful fetches, a request "
+                "with a digest that does not fit followed by >= 2 attempted fetches, or decompression of a corrupted stream")
     ctx.exhaustive = th
     ctx.assumptions += [
         "byte identity (which segment of the original data came back) is decided by the driver with bytes.Equal; "
         "everything else by the specification",
-        "one in-process volume server behind the kit's stand-in master; the filer chunk paths are driven through "
-        "filer.StreamContent and filer.ChunkReadAt with a lookup function that returns that server",
+        "one in-process volume server (upload limit 1 MiB) behind the kit's stand-in master; the filer chunk paths are "
+        "driven through filer.StreamContent and filer.ChunkReadAt with a lookup function that returns that server",
+        "raw requests: nothing is required when the server refuses for another reason than a Content-MD5 that does not "
+        "fit, of the digest of a gzipped body as sent, of file names that need quoting and of the name of an empty file",
         "input declared compressed that is not a gzip stream, and stored chunks that are not gzip streams although "
         "flagged so, are only required not to crash the process",
     ]
